@@ -48,6 +48,7 @@ const (
 	cFast          // receives in a loop from the start
 	cSlow          // receives one value at a time when told, sometimes gives up waiting
 	cLate          // like cFast but starts after half of the calls
+	cOnce          // waits for the first update, receives it, then stays busy until Close's send
 )
 
 var errScripted = errors.New("scripted failure")
@@ -226,8 +227,10 @@ func oneRun(wk, ck int, script []opSpec, plan uint64) result {
 	wexit := make(chan struct{})
 	sizes := make([]int, len(script))
 	retBad := 0
+	startW := make(chan struct{})
 	go func() {
 		defer close(wexit)
+		<-startW
 		for i, op := range script {
 			var n int
 			var err error
@@ -288,10 +291,22 @@ func oneRun(wk, ck int, script []opSpec, plan uint64) result {
 	switch ck {
 	case cFast:
 		start(false)
-	case cSlow:
+	case cSlow, cOnce:
 		start(true)
 	}
+	if len(script) == 0 || ck != cOnce {
+		close(startW)
+	}
 	for i := range script {
+		if ck == cOnce && i == 0 {
+			// the consumer enters its receive before the first call starts
+			c.tok <- struct{}{}
+			for c.inRecv.Load() == 0 {
+				runtime.Gosched()
+			}
+			yield(5)
+			close(startW)
+		}
 		if ck == cLate && !started && i >= (len(script)+1)/2 {
 			start(false)
 		}
@@ -313,7 +328,7 @@ func oneRun(wk, ck int, script []opSpec, plan uint64) result {
 				return res
 			}
 		}
-		if (plan>>(16+uint(i)%16))&1 == 1 {
+		if (plan>>(16+uint(i)%16))&1 == 1 || (ck == cOnce && i == 0) {
 			yield(3) // give the consumer a chance to block in its receive
 		}
 		if u.gated {
@@ -344,7 +359,7 @@ func oneRun(wk, ck int, script []opSpec, plan uint64) result {
 	switch {
 	case !started:
 		start(false)
-	case ck == cSlow:
+	case ck == cSlow || ck == cOnce:
 		close(c.drain)
 	}
 	closeGoClosed = true
@@ -519,8 +534,25 @@ func run(e *hk.Env) error {
 	r := e.Rng.Fork()
 	for _, sc := range scripts {
 		for wk := 0; wk < 4 && viol < maxViol; wk++ {
-			for ck := 0; ck < 4 && viol < maxViol; ck++ {
-				emit(wk, ck, sc, oneRun(wk, ck, sc, r.U64()))
+			for ck := 0; ck < 5 && viol < maxViol; ck++ {
+				if ck != cOnce {
+					emit(wk, ck, sc, oneRun(wk, ck, sc, r.U64()))
+					continue
+				}
+				if len(sc) < 2 {
+					continue
+				}
+				// forced schedule: first update delivered, the following ones dropped, then Close.
+				// Confirmed by the observation; repeated until seen.
+				for try := 0; try < 10 && viol < maxViol; try++ {
+					res := oneRun(wk, ck, sc, r.U64())
+					emit(wk, ck, sc, res)
+					stats["forced_once_then_close_attempts"]++
+					if res.viol == "" && len(res.recv) == 2 && res.recv[0] == sc[0].k {
+						stats["forced_once_then_close_achieved"]++
+						break
+					}
+				}
 			}
 		}
 	}
@@ -554,7 +586,7 @@ func run(e *hk.Env) error {
 			}
 			sc[j] = op
 		}
-		wk, ck := r.Intn(4), r.Intn(4)
+		wk, ck := r.Intn(4), r.Intn(5)
 		emit(wk, ck, sc, oneRun(wk, ck, sc, r.U64()))
 	}
 	e.Stats["random_scripts"] = nRandom
